@@ -715,6 +715,14 @@ impl VerifFs for SimFs {
         if !self.st.dir.contains_key(&from) {
             return Err(self.natural_fail(Class::Rename, &from, ENOENT));
         }
+        // rename(2): a non-directory cannot replace a directory (EISDIR), a directory cannot replace a non-directory
+        // (ENOTDIR); a symlink or a regular file at the destination is replaced
+        let from_is_dir = matches!(self.st.dir.get(&from), Some(DNode::Dir));
+        match self.st.dir.get(&to) {
+            Some(DNode::Dir) if !from_is_dir => return Err(self.natural_fail(Class::Rename, &from, EISDIR)),
+            Some(DNode::File(_)) | Some(DNode::Symlink) if from_is_dir => return Err(self.natural_fail(Class::Rename, &from, 20)),
+            _ => {}
+        }
         let eff = Eff::Rename { from, to };
         self.st.apply(&eff);
         self.push(eff);
